@@ -42,12 +42,14 @@ Definition wev_eqb (a b : wev) : bool :=
          (the model is the same for the four files; the tag only labels the case).
    CPipe sig procs exps | observed: MutatesData advertised by the pipeline's capabilitiesNode in a
          graph built by service/internal/graph.Build.
-   CTree sig tree | observed: MutatesData advertised by each pipeline of the tree, pre-order. *)
+   CTree sig roots | observed: MutatesData of the consumer handed to the receiver that feeds the root
+         pipelines (fanoutconsumer.NewX over their capabilitiesNodes), and MutatesData advertised by each
+         pipeline of the tree, pre-order. *)
 Inductive vcase :=
 | CFan (sig : nat) (caps : list bool) (ro_in : bool) (c0 : list Z) (errs : list (list N)) (ls : list wlabel)
        (o_cap : bool) (o_evs : list wev) (o_final : list (option (list Z))) (o_ro0 : bool) (o_err : list N)
 | CPipe (sig : nat) (procs exps : list bool) (o_cap : bool)
-| CTree (sig : nat) (p : pipe) (o_caps : list bool).
+| CTree (sig : nat) (roots : list pipe) (o_recv_cap : bool) (o_caps : list bool).
 
 Record fan_out := mkOut { f_cap : bool; f_evs : list wev; f_final : list (option (list Z)); f_ro0 : bool; f_err : list N }.
 
@@ -78,7 +80,8 @@ Definition check_case (c : vcase) : bool :=
       && Bool.eqb (f_ro0 o) o_ro0
       && list_eqb N.eqb (f_err o) o_err
   | CPipe _ procs exps o_cap => Bool.eqb (pipeline_cap procs exps) o_cap
-  | CTree _ p o_caps => list_eqb Bool.eqb (pipe_caps p) o_caps
+  | CTree _ roots o_rc o_caps =>
+      Bool.eqb (fan_cap (new_fan (map pipe_cap_t roots))) o_rc && list_eqb Bool.eqb (flat_map pipe_caps roots) o_caps
   end.
 
 (* model outputs, for replay files *)
@@ -87,5 +90,5 @@ Definition model_out (c : vcase) : mout :=
   match c with
   | CFan _ caps ro_in c0 errs ls _ _ _ _ _ => MFan (model_fan caps ro_in c0 errs ls)
   | CPipe _ procs exps _ => MCaps [pipeline_cap procs exps]
-  | CTree _ p _ => MCaps (pipe_caps p)
+  | CTree _ roots _ _ => MCaps (fan_cap (new_fan (map pipe_cap_t roots)) :: flat_map pipe_caps roots)
   end.
